@@ -3,9 +3,12 @@
 // public API on bytes, and the round trip C01.
 //
 // The rounds are inline in encrypt_block / decrypt_block (4 per loop iteration); the only callee is `t`
-// (resp. `t_prime` in the key schedule).  Composition obligations replace `t` / `t_prime` by their contracts
-// (`bcref::sm4::t`, licensed by c_t / c_t_prime); the round trip additionally abstracts `t` to an uninterpreted
-// function (any pure u32 -> u32 function: the Feistel structure inverts whatever T is).
+// (resp. `t_prime` in the key schedule).  c_t / c_t_prime show that `t` / `t_prime` ARE the standard's T / T'
+// (bcref::sm4::t / t_prime).  The composition obligations then replace T on BOTH sides (the real `t` and the
+// reference's `bcref::sm4::t`) by one uninterpreted function u32 -> u32: the round structure, round-key order and byte
+// plumbing agree for every function T, hence for the standard's.  (Replacing `t` by the table-driven `bcref::sm4::t`
+// instead is the same statement but takes SAT solvers > 10 min: 128 pairs of S-box lookups to match up.)
+// The unabstracted statements are kept as `*_mono` obligations on z3.
 //
 // @module file=sm4/src/lib.rs
 use super::*;
@@ -33,6 +36,31 @@ pub fn any_sm4() -> Sm4 { Sm4 { rk: kani::any() } }
 
 /// Uninterpreted function u32 -> u32 (Ackermann table with a concrete call counter).
 pub mod uf32 {
+    pub const MAXC: usize = 64;
+    pub static mut IN: [u32; MAXC] = [0; MAXC];
+    pub static mut OUT: [u32; MAXC] = [0; MAXC];
+    pub static mut N: usize = 0;
+    #[allow(static_mut_refs)]
+    pub fn f(x: u32) -> u32 {
+        unsafe {
+            let mut y: u32 = kani::any();
+            let mut found = false;
+            let mut i = 0;
+            while i < N {
+                if !found && IN[i] == x { y = OUT[i]; found = true; }
+                i += 1;
+            }
+            assert!(N < MAXC);
+            IN[N] = x;
+            OUT[N] = y;
+            N += 1;
+            y
+        }
+    }
+}
+
+/// A second, independent uninterpreted function (for T' next to T).
+pub mod uf32b {
     pub const MAXC: usize = 64;
     pub static mut IN: [u32; MAXC] = [0; MAXC];
     pub static mut OUT: [u32; MAXC] = [0; MAXC];
@@ -106,8 +134,9 @@ pub fn spec_new(key: &[u8; 16]) -> [u32; 32] { bcref::sm4::key_expansion(&bcref:
 
 // @ob name=c_key_schedule props=C06,C20 fn=sm4::Sm4::new uses=c_t_prime,x_tables timeout=300
 #[kani::proof]
-#[kani::stub(t_prime, bcref::sm4::t_prime)]
-#[kani::unwind(37)]
+#[kani::stub(t_prime, uf32b::f)]
+#[kani::stub(bcref::sm4::t_prime, uf32b::f)]
+#[kani::unwind(65)]
 fn c_key_schedule() {
     let k: [u8; 16] = kani::any();
     let c = Sm4::new(&Array(k));
@@ -128,8 +157,9 @@ pub fn dec(c: &Sm4, b: [u8; 16]) -> [u8; 16] {
 
 // @ob name=c_encrypt props=C06,C20 fn=sm4::Sm4::encrypt_block uses=c_t timeout=300
 #[kani::proof]
-#[kani::stub(t, bcref::sm4::t)]
-#[kani::unwind(37)]
+#[kani::stub(t, uf32::f)]
+#[kani::stub(bcref::sm4::t, uf32::f)]
+#[kani::unwind(65)]
 fn c_encrypt() {
     let c = any_sm4();
     let b: [u8; 16] = kani::any();
@@ -138,8 +168,9 @@ fn c_encrypt() {
 
 // @ob name=c_decrypt props=C06,C20 fn=sm4::Sm4::decrypt_block uses=c_t timeout=300
 #[kani::proof]
-#[kani::stub(t, bcref::sm4::t)]
-#[kani::unwind(37)]
+#[kani::stub(t, uf32::f)]
+#[kani::stub(bcref::sm4::t, uf32::f)]
+#[kani::unwind(65)]
 fn c_decrypt() {
     let c = any_sm4();
     let b: [u8; 16] = kani::any();
@@ -149,9 +180,11 @@ fn c_decrypt() {
 // ---------------------------------------------------------------- public API on bytes, every key and block
 // @ob name=c_api_enc props=C06,C20 fn=sm4::Sm4::new,sm4::Sm4::encrypt_block uses=c_t,c_t_prime timeout=300
 #[kani::proof]
-#[kani::stub(t, bcref::sm4::t)]
-#[kani::stub(t_prime, bcref::sm4::t_prime)]
-#[kani::unwind(37)]
+#[kani::stub(t, uf32::f)]
+#[kani::stub(bcref::sm4::t, uf32::f)]
+#[kani::stub(t_prime, uf32b::f)]
+#[kani::stub(bcref::sm4::t_prime, uf32b::f)]
+#[kani::unwind(65)]
 fn c_api_enc() {
     let k: [u8; 16] = kani::any();
     let b: [u8; 16] = kani::any();
@@ -161,9 +194,11 @@ fn c_api_enc() {
 
 // @ob name=c_api_dec props=C06,C20 fn=sm4::Sm4::new,sm4::Sm4::decrypt_block uses=c_t,c_t_prime timeout=300
 #[kani::proof]
-#[kani::stub(t, bcref::sm4::t)]
-#[kani::stub(t_prime, bcref::sm4::t_prime)]
-#[kani::unwind(37)]
+#[kani::stub(t, uf32::f)]
+#[kani::stub(bcref::sm4::t, uf32::f)]
+#[kani::stub(t_prime, uf32b::f)]
+#[kani::stub(bcref::sm4::t_prime, uf32b::f)]
+#[kani::unwind(65)]
 fn c_api_dec() {
     let k: [u8; 16] = kani::any();
     let b: [u8; 16] = kani::any();
